@@ -230,6 +230,15 @@ func propC20(c *ctx) error {
 				sb.WriteString(line + "\n")
 				curLine += 1 + strings.Count(line, "\n")
 			}
+			if kwFlag == "" && f == 0 {
+				// always present: context keywords called with an EMPTY msgid and an empty / a non-literal context — their
+				// key would be the header's: nothing may be added and the header must survive
+				for _, call := range []string{"_x('', '')", "X(name, '')", "XN('', '', 'p', 2)", "_xn(name, '', 'p', 2)"} {
+					sb.WriteString(`<p ` + ap + `title="${` + call + `}">o</p>` + "\n")
+					allBlocks = append(allBlocks, call)
+					curLine++
+				}
+			}
 			os.WriteFile(filepath.Join(dir, fname), []byte(sb.String()), 0o644)
 			rcFiles = append(rcFiles, [2]string{fname, sb.String()})
 		}
